@@ -146,6 +146,11 @@ func DetectAnchoredLiteral(re *syntax.Regexp) *AnchoredLiteralInfo {
 			// After wildcard - must be charclass+ or nothing
 			if isCharClassPlus(sub) && i == suffixIdx-1 {
 				// Charclass bridge right before suffix
+				// A byte table can only express ASCII classes: a rune >= 0x80 is
+				// several bytes in UTF-8, none of which equals its code point.
+				if cls := sub.Sub[0].Rune; len(cls) == 0 || cls[len(cls)-1] > 0x7F {
+					return nil
+				}
 				charClassTable = buildCharClassTable(sub.Sub[0])
 				charClassMin = 1 // Plus requires at least 1
 			} else {
@@ -223,10 +228,10 @@ func extractLiteral(re *syntax.Regexp) []byte {
 	if re.Op != syntax.OpLiteral || re.Flags&syntax.FoldCase != 0 {
 		return nil
 	}
-	// Convert runes to bytes (assuming ASCII for now)
+	// Convert runes to their UTF-8 bytes (U+0080..U+00FF are two bytes, not one)
 	result := make([]byte, 0, len(re.Rune))
 	for _, r := range re.Rune {
-		if r > 255 {
+		if r >= 0x80 {
 			// Non-ASCII literal - still valid but needs UTF-8 encoding
 			// For simplicity, encode as UTF-8
 			buf := make([]byte, 4)
